@@ -129,6 +129,15 @@ func runC02(r *core.Run) {
 		if r.Chance(15, "drop-default-row") && len(keepRows) > 1 {
 			keepRows, rows = keepRows[:len(keepRows)-1], rows[:len(rows)-1]
 		}
+		if len(keepRows) > 1 && r.Chance(30, "duplicate-mrtd?") {
+			// unusual but legal: two rows (say the early- and late-accept variants of one RAM size)
+			// carry the same MRTD
+			i := r.Intn(len(keepRows), "dup-from")
+			j := (i + 1 + r.Intn(len(keepRows)-1, "dup-to")) % len(keepRows)
+			keepRows[j] = &epb.VMTdx_Measurement{RamGib: keepRows[j].RamGib, EarlyAccept: keepRows[j].EarlyAccept, Mrtd: keepRows[i].Mrtd}
+			rows[j].mrtd = keepRows[i].Mrtd
+			r.Probe("duplicate-mrtd-rows")
+		}
 		g.Tdx.Measurements = keepRows
 		for c, m := range g.GetSevSnp().GetMeasurements() {
 			table[c] = m
